@@ -26,6 +26,23 @@ theorem K_is_fips : Sha256.K = Spec.K := genK_eq
 /-- the state and count written by `Sha256::reset()` are H⁽⁰⁾ of FIPS 180-4 §5.3.3 and 0 -/
 theorem H0_is_fips : Sha256.H0 = Spec.H0 ∧ Sha256.count0 = 0 := ⟨genH0_eq, genCount0_eq⟩
 
+/-- the constants of `Sha256.hpp` used by `hmac` are B = 64, L = 32, opad = 0x5C, ipad = 0x36 (RFC 2104 §2) -/
+theorem hmac_constants_are_rfc2104 :
+    Sha256.blockSize = Spec.B ∧ Sha256.digestSize = 32 ∧ Sha256.hmacOpad = 0x5c ∧ Sha256.hmacIpad = 0x36 := by
+  decide
+
+/-- every array index computed by the macros stays inside `T[8]`, `W[16]`, `data[16]`, `K[64]`
+(the `unsigned` wrap-around of `0-(i)`, `i-2`, … followed by the masks), and the buffer position
+`(UInt32)count & 0x3F` inside `buffer[64]` -/
+theorem macro_indices_in_range :
+    (∀ i, i < 16 → ∀ k, k < 8 → ((UInt32.ofNat k - UInt32.ofNat i) &&& 7).toNat < 8) ∧
+    (∀ i, i < 16 → (UInt32.ofNat i &&& 15).toNat < 16 ∧ ((UInt32.ofNat i - 2) &&& 15).toNat < 16 ∧
+      ((UInt32.ofNat i - 7) &&& 15).toNat < 16 ∧ ((UInt32.ofNat i - 15) &&& 15).toNat < 16 ∧ (UInt32.ofNat i).toNat < 16) ∧
+    (∀ j, j < 64 → j % 16 = 0 → ∀ i, i < 16 → (UInt32.ofNat i + UInt32.ofNat j).toNat < 64) ∧
+    (∀ p : Sha, bufferPos p < 64) := by
+  refine ⟨by decide +kernel, by decide +kernel, by decide +kernel, fun p => ?_⟩
+  rw [bufferPos_eq]; omega
+
 /-- the macro bodies `S0 S1 s0 s1 Ch Maj` of the current sources are Σ₀ Σ₁ σ₀ σ₁ Ch Maj of §4.1.2,
 for all 32-bit words -/
 theorem word_functions_are_fips (x y z : UInt32) :
